@@ -84,7 +84,7 @@ def _run_rules(ctx):
     labels = sorted({fam_label(x['family']) for x in fams})
     rep.floor('R1', 'configuration families of the builder', len(labels), 3, where(bb))
     env = builder_env(F('+0'))
-    kt_l = oa.arg_local(oa.dec_args.get('kt')) if oa.dec_args.get('kt') else None
+    kt_l = oa.arg_local(oa.dec_args.get('kt'), scope='outer') if oa.dec_args.get('kt') else None
     if not rep.check(kt_l is not None, 'R2', 'anchor:schedule-variable', where(oa.body, oa.decision_bb), '_%s' % kt_l,
                      'cannot identify the temperature local passed to the decision', 'anchor-lost'):
         return
